@@ -352,6 +352,13 @@ def report(prop, tier, seed, cfg, results, kres, known, t0):
                         continue
                     if e["msg"].startswith("recommendation not met"):
                         continue
+                    drifted = any(x.get("rule") == "mirror-drift" and x.get("where") == e["where"] for x in info["rewrites"])
+                    if drifted and e["msg"].startswith("assertion failed") and re.match(r"assert\s*(\(|forall)", e["snippet"]):
+                        # the function's text differs from the authoring-time mirror and what failed is one of OUR
+                        # proof hints (a Verus `assert`, not an assertion of the code): the hint may simply no longer
+                        # fit the new text. Contract clauses (post/pre-conditions, loop invariants) stay verdicts.
+                        undecided.append("%s: proof hint failed in %s after mirror drift (%s)" % (unit, e["where"], e["snippet"][:80]))
+                        continue
                     oid = obligation_id(unit, e)
                     kh = [k for k in known if k.get("obligation") == oid]
                     if kh:
